@@ -14,9 +14,9 @@ Property theorems only; helper lemmas in `EAO/Lemmas/Merge.lean`.
 * `periodic_groups_sound` — whatever `makePeriodic` merges shares a group (asset, node ≠ NaN, type,
   var_name, duration, position in period).  The converse is FALSE for the code as it is (a variable with
   several rows is merged only once): `periodic_groups_complete_counterexample` (finding F-13f).
-* `coarse_weights*` — the weights `extendMinor` writes are `dt_fine/dt_coarse`, sum to one and give a
-  constant rate; FALSE when the incoming mapping has a `disp_factor` column (weights accumulate, finding
-  F-13e): `coarse_weights_accumulate_counterexample`; true for the repaired variant.
+* `coarse_weights*` — for any incoming mapping the rows `extendMinor` writes for a coarse row carry
+  `(dt_fine/dt_coarse)·f`; per row they sum to `f` and give a constant rate (finding F-13e, accumulation of
+  the weights for mappings with a `disp_factor` column, is repaired in the code: `e844f73`).
 * tie of `makePeriodic` to `mergeProblem`: checked at run time on every generated case
   (`agreesWithGeneric`, driver field `generic`), stated as TARGET below.
 -/
@@ -145,43 +145,48 @@ theorem stepLabels_length (pts periods durations : List Int) :
     | cons t ts ih => intro a b c; simp only [stepLabelsAux, List.length_cons]; rw [ih]
   exact aux pts 0 0 0
 
-/-- **C13 `coarse_weights`.**  Without a `disp_factor` column every row written for a coarse variable
-    carries the weight `dt_fine/dt_coarse` of its own minor step, in the order of the minor steps. -/
-theorem coarse_weights (dtFine : List Rat) (dtCoarse : Rat) (r : MapRow) (I : List Nat) (acc : Rat) :
-    (extendSteps dtFine dtCoarse false r I acc).map (·.factor) = I.map (fun t => dtFine.getD t 0 / dtCoarse) ∧
-    (extendSteps dtFine dtCoarse false r I acc).map (·.step) = I :=
-  ⟨extendSteps_factors dtFine dtCoarse r I acc, extendSteps_steps dtFine dtCoarse false r I acc⟩
+/-- **C13 `coarse_weights`.**  For ANY incoming mapping row `r` (with or without a `disp_factor` column; a
+    missing factor is 1) the rows written for it carry, in the order of the minor steps, the factor
+    `(dt_fine/dt_coarse) · r.factor` of their own minor step. -/
+theorem coarse_weights (dtFine : List Rat) (dtCoarse : Rat) (r : MapRow) (I : List Nat) :
+    (extendSteps dtFine dtCoarse r I).map (·.factor) = I.map (fun t => dtFine.getD t 0 / dtCoarse * r.factor) ∧
+    (extendSteps dtFine dtCoarse r I).map (·.step) = I :=
+  ⟨extendSteps_factors dtFine dtCoarse r I, extendSteps_steps dtFine dtCoarse r I⟩
 
-/-- the weights of one coarse variable sum to one when the coarse step is the sum of its minor steps -/
-theorem coarse_weights_sum (dtFine : List Rat) (dtCoarse : Rat) (r : MapRow) (I : List Nat) (acc : Rat)
+/-- per original row the written factors sum to the row's factor when the coarse step is the sum of its
+    minor steps (to one for a mapping without factors) -/
+theorem coarse_weights_sum (dtFine : List Rat) (dtCoarse : Rat) (r : MapRow) (I : List Nat)
     (hsum : dtCoarse = (I.map fun t => dtFine.getD t 0).sum) (h0 : dtCoarse ≠ 0) :
-    ((extendSteps dtFine dtCoarse false r I acc).map (·.factor)).sum = 1 := by
+    ((extendSteps dtFine dtCoarse r I).map (·.factor)).sum = r.factor := by
   rw [extendSteps_factors]
-  have := sum_map_div (I.map fun t => dtFine.getD t 0) dtCoarse
-  rw [List.map_map] at this
-  have h2 : (I.map fun t => dtFine.getD t 0 / dtCoarse) = I.map ((fun x => x / dtCoarse) ∘ fun t => dtFine.getD t 0) := rfl
-  rw [h2, this, ← hsum, Rat.div_def, Rat.mul_inv_cancel _ h0]
+  have h1 : (I.map fun t => dtFine.getD t 0 / dtCoarse * r.factor)
+      = (I.map fun t => dtFine.getD t 0 / dtCoarse).map (· * r.factor) := by
+    rw [List.map_map]; rfl
+  have h2 : (I.map fun t => dtFine.getD t 0 / dtCoarse) = (I.map fun t => dtFine.getD t 0).map (· / dtCoarse) := by
+    rw [List.map_map]; rfl
+  rw [h1, sum_map_mul_right, h2, sum_map_div, ← hsum, Rat.div_def, Rat.mul_inv_cancel _ h0]
+  grind
 
-/-- hence constant rate: the volume a coarse variable `x` puts on a minor step, divided by the length of
-    that step, is `x/dt_coarse` for every minor step -/
-theorem coarse_constant_rate (dtFine : List Rat) (dtCoarse : Rat) (r : MapRow) (I : List Nat) (acc : Rat)
-    (x : Rat) (m : MapRow) (hm : m ∈ extendSteps dtFine dtCoarse false r I acc)
+/-- hence constant rate: the volume a coarse variable `x` puts on a minor step through row `r`, divided by
+    the length of that step, is `x · r.factor / dt_coarse` for every minor step -/
+theorem coarse_constant_rate (dtFine : List Rat) (dtCoarse : Rat) (r : MapRow) (I : List Nat)
+    (x : Rat) (m : MapRow) (hm : m ∈ extendSteps dtFine dtCoarse r I)
     (hdt : dtFine.getD m.step 0 ≠ 0) :
-    x * m.factor / dtFine.getD m.step 0 = x / dtCoarse := by
-  rw [(mem_extendSteps dtFine dtCoarse r I acc m hm).2.1]
+    x * m.factor / dtFine.getD m.step 0 = x * r.factor / dtCoarse := by
+  rw [(mem_extendSteps dtFine dtCoarse r I m hm).2.1]
   simp only [Rat.div_def]
   have := Rat.mul_inv_cancel _ hdt
-  calc x * (dtFine.getD m.step 0 * dtCoarse⁻¹) * (dtFine.getD m.step 0)⁻¹
-      = x * dtCoarse⁻¹ * (dtFine.getD m.step 0 * (dtFine.getD m.step 0)⁻¹) := by grind
-    _ = x * dtCoarse⁻¹ := by rw [this]; grind
+  calc x * (dtFine.getD m.step 0 * dtCoarse⁻¹ * r.factor) * (dtFine.getD m.step 0)⁻¹
+      = x * r.factor * dtCoarse⁻¹ * (dtFine.getD m.step 0 * (dtFine.getD m.step 0)⁻¹) := by grind
+    _ = x * r.factor * dtCoarse⁻¹ := by rw [this]; grind
 
-/-- the same on the level of `extendMinor`: every output row stems from a row `r` of the coarse mapping, keeps
-    its variable, asset, node, type and name, sits on a minor step of `r`'s coarse step `i` and carries the
-    weight `dt_fine/dt_coarse(i)` -/
+/-- the same on the level of `extendMinor`, for any mapping: every output row stems from a row `r` of the
+    coarse mapping, keeps its variable, asset, node, type and name, sits on a minor step of `r`'s coarse step
+    `i` and carries the factor `dt_fine/dt_coarse(i) · r.factor` -/
 theorem coarse_weights_extendMinor (M : List MapRow) (cg : CoarseGrid) (dtFine : List Rat) (M' : List MapRow)
-    (h : extendMinor M cg dtFine false = .ok M') (m : MapRow) (hm : m ∈ M') :
+    (h : extendMinor M cg dtFine = .ok M') (m : MapRow) (hm : m ∈ M') :
     ∃ r, r ∈ M ∧ ∃ i, majorOf cg r = some i ∧ m.step ∈ cg.minor.getD i [] ∧
-      m.factor = dtFine.getD m.step 0 / cg.grid.dt.getD i 0 ∧ m.var = r.var ∧ m.asset = r.asset ∧
+      m.factor = dtFine.getD m.step 0 / cg.grid.dt.getD i 0 * r.factor ∧ m.var = r.var ∧ m.asset = r.asset ∧
       m.node = r.node ∧ m.kind = r.kind ∧ m.varName = r.varName := by
   unfold extendMinor at h
   split at h
@@ -193,38 +198,33 @@ theorem coarse_weights_extendMinor (M : List MapRow) (cg : CoarseGrid) (dtFine :
     split at hmr
     · simp at hmr
     · rename_i i hi
-      have := mem_extendSteps _ _ _ _ _ _ hmr
+      have := mem_extendSteps _ _ _ _ _ hmr
       exact ⟨i, hi, this.1, this.2.1, this.2.2.1, this.2.2.2.1, this.2.2.2.2.1, this.2.2.2.2.2.1, this.2.2.2.2.2.2.1⟩
   · cases h
 
-/-- non-vacuity: hourly grid, one coarse step of four hours -/
+/-- the output of `extendMinor` is the concatenation, row by row, of the rows written for each coarse row;
+    with `coarse_weights_sum`: per original row the factors sum to the row's factor -/
+theorem extendMinor_rows (M : List MapRow) (cg : CoarseGrid) (dtFine : List Rat) (M' : List MapRow)
+    (h : extendMinor M cg dtFine = .ok M') :
+    M' = M.flatMap fun r => match majorOf cg r with
+      | none => []
+      | some i => extendSteps dtFine (cg.grid.dt.getD i 0) r (cg.minor.getD i []) := by
+  unfold extendMinor at h
+  split at h
+  · injection h with h; subst h; rfl
+  · cases h
+
+/-- non-vacuity: hourly grid, one coarse step of four hours; a transport (factors −1 and efficiency 1/2, one
+    variable, two rows): every minor step gets a quarter of the row's factor -/
 example :
-    (extendMinor [{ var := 0, asset := "a", node := some "n", kind := .d, step := 0, factor := 1, isBool := false, varName := "disp" }]
-        { grid := { pts := [0], idx := [0], dt := [4], Dt := [1], df := [1] }, minor := [[0, 1, 2, 3]] } [1, 1, 1, 1] false).toOption
-      = some ((List.range 4).map fun t =>
-          { var := 0, asset := "a", node := some "n", kind := .d, step := t, factor := 1/4, isBool := false, varName := "disp" }) := by
+    (extendMinor
+        [{ var := 0, asset := "t", node := some "n1", kind := .d, step := 0, factor := -1, isBool := false, varName := "disp" },
+         { var := 0, asset := "t", node := some "n2", kind := .d, step := 0, factor := 1/2, isBool := false, varName := "disp" }]
+        { grid := { pts := [0], idx := [0], dt := [4], Dt := [1], df := [1] }, minor := [[0, 1, 2, 3]] } [1, 1, 1, 1]).toOption
+      = some (((List.range 4).map fun t =>
+          ({ var := 0, asset := "t", node := some "n1", kind := .d, step := t, factor := -1/4, isBool := false, varName := "disp" } : MapRow))
+        ++ (List.range 4).map fun t =>
+          { var := 0, asset := "t", node := some "n2", kind := .d, step := t, factor := 1/8, isBool := false, varName := "disp" }) := by
   decide +kernel
-
-/-- **failure with a `disp_factor` column** (finding F-13e; transport assets): the code multiplies the factor
-    it wrote for the previous minor step again — weights `f/4, f/16, f/64, f/256`, they do not sum to `f` -/
-theorem coarse_weights_accumulate_counterexample :
-    (extendSteps [1, 1, 1, 1] 4 true
-        { var := 0, asset := "t", node := some "n1", kind := .d, step := 0, factor := -1, isBool := false, varName := "disp" }
-        [0, 1, 2, 3] (-1)).map (·.factor) = [-1/4, -1/16, -1/64, -1/256] := by
-  decide +kernel
-
-/-- the repaired variant (`weight · disp_factor` of the ORIGINAL row at every minor step) distributes the
-    factor: the written factors sum to the row's factor -/
-theorem coarse_weights_repaired (dtFine : List Rat) (dtCoarse : Rat) (r : MapRow) (I : List Nat)
-    (hsum : dtCoarse = (I.map fun t => dtFine.getD t 0).sum) (h0 : dtCoarse ≠ 0) :
-    ((extendStepsRepaired dtFine dtCoarse r I).map (·.factor)).sum = r.factor := by
-  rw [extendStepsRepaired_factors]
-  have h1 : (I.map fun t => dtFine.getD t 0 / dtCoarse * r.factor)
-      = (I.map fun t => dtFine.getD t 0 / dtCoarse).map (· * r.factor) := by
-    rw [List.map_map]; rfl
-  have h2 : (I.map fun t => dtFine.getD t 0 / dtCoarse) = (I.map fun t => dtFine.getD t 0).map (· / dtCoarse) := by
-    rw [List.map_map]; rfl
-  rw [h1, sum_map_mul_right, h2, sum_map_div, ← hsum, Rat.div_def, Rat.mul_inv_cancel _ h0]
-  grind
 
 end EAO.C13
